@@ -853,12 +853,376 @@ fn run_c13bb(args: &Args) -> Report {
     rep
 }
 
+// ----------------------------------------------------------------------------------
+// C16: edits racing with requests
+
+fn norm_json(v: &Value) -> String {
+    // order-insensitive normal form for arrays of locations / highlights / completion items /
+    // edits: arrays of objects are sorted by their serialisation
+    fn norm(v: &Value) -> Value {
+        match v {
+            Value::Array(a) => {
+                let mut xs: Vec<Value> = a.iter().map(norm).collect();
+                if xs.iter().all(|x| x.is_object()) {
+                    xs.sort_by_key(|x| x.to_string());
+                }
+                Value::Array(xs)
+            }
+            Value::Object(o) => {
+                let mut m = serde_json::Map::new();
+                let mut keys: Vec<&String> = o.keys().collect();
+                keys.sort();
+                for k in keys {
+                    // sortText / preselect depend only on relevance, keep; nothing volatile
+                    m.insert(k.clone(), norm(&o[k]));
+                }
+                Value::Object(m)
+            }
+            x => x.clone(),
+        }
+    }
+    norm(v).to_string()
+}
+
+#[derive(Clone, Debug)]
+struct ReqT {
+    method: &'static str,
+    params: Value,
+    doc: usize,
+}
+
+fn gen_race_request(r: &mut Rng, uri: &str, doc: &Doc, di: usize) -> ReqT {
+    let ps = doc.all_positions();
+    let p = ps[r.below(ps.len())];
+    let td = json!({"uri": uri});
+    let pos = json!({"line": p.line, "character": p.col});
+    let (method, params): (&'static str, Value) = match r.below(10) {
+        0 => ("textDocument/hover", json!({"textDocument":td,"position":pos})),
+        1 | 2 => ("textDocument/definition", json!({"textDocument":td,"position":pos})),
+        3 | 4 => ("textDocument/references", json!({"textDocument":td,"position":pos,"context":{"includeDeclaration":true}})),
+        5 => ("textDocument/documentHighlight", json!({"textDocument":td,"position":pos})),
+        6 => ("textDocument/completion", json!({"textDocument":td,"position":pos})),
+        7 => ("textDocument/rename", json!({"textDocument":td,"position":pos,"newName":"renamed_zz"})),
+        8 => ("textDocument/semanticTokens/full", json!({"textDocument":td})),
+        _ => ("textDocument/prepareRename", json!({"textDocument":td,"position":pos})),
+    };
+    ReqT { method, params, doc: di }
+}
+
+fn big_module(r: &mut Rng) -> String {
+    let cfg = vh::gen::GenCfg { modules: 1, max_items: r.range(8, 24), max_depth: r.range(2, 3), holes: false, non_core: true, trivia: vh::prog::Trivia::Plain, non_ascii: true };
+    let g = vh::gen::generate(r, &cfg);
+    g.printed[0].text.clone()
+}
+
+fn line_edit(r: &mut Rng, doc: &Doc) -> (Value, Doc) {
+    // edits that change the line structure (so that a stale line map is visible): insert or
+    // delete whole lines, or insert text with newlines / astral characters
+    let lines = doc.lines();
+    let li = r.below(lines.len());
+    let mut d = doc.clone();
+    let (range, text): (((u32, u32), (u32, u32)), String) = match r.below(4) {
+        0 => (((li as u32, 0), (li as u32, 0)), "// inserted 💣 line\n\n".to_string()),
+        1 if lines.len() > 2 && li + 1 < lines.len() => (((li as u32, 0), (li as u32 + 1, 0)), String::new()),
+        2 => (((li as u32, 0), (li as u32, 0)), format!("fn race_{}(x) {{ x }}\n", r.below(1000))),
+        _ => {
+            let (a, b) = lines[li];
+            let len = vh::lspmodel::utf16_len(&doc.text[a..b]);
+            (((li as u32, len), (li as u32, len)), " // 💣💣 tail".to_string())
+        }
+    };
+    d.apply(Some((Pos { line: range.0 .0, col: range.0 .1 }, Pos { line: range.1 .0, col: range.1 .1 })), &text).expect("valid line edit");
+    (json!({"range":{"start":{"line":range.0 .0,"character":range.0 .1},"end":{"line":range.1 .0,"character":range.1 .1}},"text":text}), d)
+}
+
+fn expected_diagnostics(text: &str) -> Vec<String> {
+    let doc = Doc::new(text.to_string());
+    let parse = syntax::parse_module(text);
+    let mut out: Vec<String> = parse
+        .errors()
+        .iter()
+        .take(128)
+        .map(|e| {
+            let s = doc.position_of(usize::from(e.range.start()));
+            let t = doc.position_of(usize::from(e.range.end()));
+            format!("{}:{}-{}:{} {}", s.line, s.col, t.line, t.col, e.kind)
+        })
+        .collect();
+    out.sort();
+    out
+}
+
+fn diag_nf(params: &Value) -> Vec<String> {
+    let mut out: Vec<String> = params["diagnostics"]
+        .as_array()
+        .cloned()
+        .unwrap_or_default()
+        .iter()
+        .map(|d| {
+            format!(
+                "{}:{}-{}:{} {}",
+                d["range"]["start"]["line"], d["range"]["start"]["character"], d["range"]["end"]["line"], d["range"]["end"]["character"],
+                d["message"].as_str().unwrap_or("")
+            )
+        })
+        .collect();
+    out.sort();
+    out
+}
+
+fn run_c16(args: &Args) -> Report {
+    let mut rep = Report::new("C16", args.shard);
+    let env = setup_env(args, "c16");
+    let verif_bin = PathBuf::from(args.get("glas-verif-bin").unwrap_or(args.get("glas-bin").unwrap()));
+    let has_hook = args.get("glas-verif-bin").is_some();
+    let mut r = Rng::derive(args.seed, args.shard as u64, 16);
+    let t0 = Instant::now();
+    let mut n = 0u64;
+    let root_uri = file_uri(&env.proj.display().to_string());
+    let uris = [file_uri(&env.proj.join("src/a.gleam").display().to_string()), file_uri(&env.proj.join("src/b.gleam").display().to_string())];
+    while t0.elapsed().as_secs_f64() < args.budget_s {
+        let case_seed = r.next_u64();
+        let mut cr = Rng::new(case_seed);
+        let ndocs = cr.range(1, 2);
+        // versions[d][v] = text of doc d at global step v
+        let mut cur: Vec<Doc> = (0..ndocs).map(|_| Doc::new(big_module(&mut cr))).collect();
+        let k = cr.range(2, 7);
+        let mut steps: Vec<(usize, Value)> = Vec::new(); // (doc, change)
+        let mut texts: Vec<Vec<Doc>> = vec![cur.clone()];
+        // requests per step (issued after the step's change): templates
+        let mut reqs: Vec<Vec<ReqT>> = Vec::new();
+        {
+            let mut v0 = Vec::new();
+            for _ in 0..cr.range(1, 6) {
+                let di = cr.below(ndocs);
+                v0.push(gen_race_request(&mut cr, &uris[di], &cur[di], di));
+            }
+            reqs.push(v0);
+        }
+        for _ in 0..k {
+            let di = cr.below(ndocs);
+            let (ch, nd) = line_edit(&mut cr, &cur[di]);
+            cur[di] = nd;
+            steps.push((di, ch));
+            texts.push(cur.clone());
+            let mut rv = Vec::new();
+            for _ in 0..cr.range(1, 16) {
+                let dj = cr.below(ndocs);
+                rv.push(gen_race_request(&mut cr, &uris[dj], &cur[dj], dj));
+            }
+            reqs.push(rv);
+        }
+        let replay = json!({"kind":"race","case_seed":case_seed.to_string(),"docs":texts[0].iter().map(|d| d.text.clone()).collect::<Vec<_>>(),"steps":steps.iter().map(|(d,c)| json!([d,c])).collect::<Vec<_>>(),
+            "requests":reqs.iter().map(|v| v.iter().map(|q| json!([q.method,q.params])).collect::<Vec<_>>()).collect::<Vec<_>>()});
+        rep.evaluations += 1;
+
+        // ---- sequential reference: every request template at every version
+        let mut refsrv = match Server::spawn(&env.bin, &[], None) {
+            Ok(s) => s,
+            Err(_) => { rep.inconclusive += 1; continue; }
+        };
+        if refsrv.initialize(Some(&root_uri), Duration::from_secs(20)).is_none() { rep.inconclusive += 1; continue; }
+        let mut version = 0i64;
+        for d in 0..ndocs {
+            version += 1;
+            refsrv.notify("textDocument/didOpen", json!({"textDocument":{"uri":uris[d],"languageId":"gleam","version":version,"text":texts[0][d].text}}));
+        }
+        let all_templates: Vec<&ReqT> = reqs.iter().flatten().collect();
+        // ref_ans[template index][version] = Some(normal form of result) | None (error)
+        let mut ref_ans: Vec<Vec<Option<String>>> = vec![Vec::new(); all_templates.len()];
+        let mut ref_ok = true;
+        for v in 0..=k {
+            if v > 0 {
+                let (di, ch) = &steps[v - 1];
+                version += 1;
+                refsrv.notify("textDocument/didChange", json!({"textDocument":{"uri":uris[*di],"version":version},"contentChanges":[ch]}));
+            }
+            for (ti, t) in all_templates.iter().enumerate() {
+                let id = refsrv.request(t.method, t.params.clone());
+                match refsrv.wait_response(id, Duration::from_secs(20)) {
+                    Some(resp) => ref_ans[ti].push(resp.get("result").map(norm_json)),
+                    None => { ref_ok = false; break; }
+                }
+            }
+            if !ref_ok { break; }
+        }
+        refsrv.shutdown();
+        if !ref_ok {
+            rep.inconclusive += 1;
+            rep.count("reference_run_failed(C15's business)", 1);
+            continue;
+        }
+
+        // ---- concurrent run
+        let sched = format!("{}:{}:{}", cr.next_u64() % 1_000_000, cr.range(100, 700), cr.range(50, 3000));
+        let log_path = env.root.join("sched.log");
+        let _ = std::fs::remove_file(&log_path);
+        let envs = vec![("GLAS_VERIF_SCHED".to_string(), sched.clone()), ("GLAS_VERIF_SCHED_LOG".to_string(), log_path.display().to_string())];
+        let mut s = match Server::spawn(&verif_bin, &envs, None) { Ok(s) => s, Err(_) => { rep.inconclusive += 1; continue; } };
+        if s.initialize(Some(&root_uri), Duration::from_secs(20)).is_none() { rep.inconclusive += 1; continue; }
+        let mut bytes: Vec<u8> = Vec::new();
+        let mut version = 0i64;
+        for d in 0..ndocs {
+            version += 1;
+            bytes.extend(vh::lspclient::frame(&json!({"jsonrpc":"2.0","method":"textDocument/didOpen","params":{"textDocument":{"uri":uris[d],"languageId":"gleam","version":version,"text":texts[0][d].text}}})));
+        }
+        // (id, template index, issue version)
+        let mut issued: Vec<(i64, usize, usize)> = Vec::new();
+        let mut ti = 0usize;
+        for v in 0..=k {
+            if v > 0 {
+                let (di, ch) = &steps[v - 1];
+                version += 1;
+                bytes.extend(vh::lspclient::frame(&json!({"jsonrpc":"2.0","method":"textDocument/didChange","params":{"textDocument":{"uri":uris[*di],"version":version},"contentChanges":[ch]}})));
+            }
+            for t in &reqs[v] {
+                let (id, m) = s.make_request(t.method, t.params.clone());
+                bytes.extend(vh::lspclient::frame(&m));
+                issued.push((id, ti, v));
+                ti += 1;
+            }
+        }
+        // seeded batching: split the byte stream at random points, tiny pauses now and then
+        let mut off = 0;
+        while off < bytes.len() {
+            let chunk = match cr.below(4) { 0 => cr.range(1, 64), 1 => cr.range(64, 2048), _ => cr.range(2048, 65536) };
+            let end = (off + chunk).min(bytes.len());
+            if !s.write_bytes(&bytes[off..end]) { break; }
+            off = end;
+            if cr.chance(1, 5) { std::thread::sleep(Duration::from_micros(cr.below(1500) as u64)); }
+            s.pump_until(Duration::from_millis(0), |_| true);
+        }
+        // barrier: all answered
+        let ids: Vec<i64> = issued.iter().map(|x| x.0).collect();
+        let done = s.pump_until(Duration::from_secs(30), |s| ids.iter().all(|id| s.responses.contains_key(id)));
+        if !done {
+            if !s.alive() {
+                let ex = exit_string(&mut s);
+                rep.violate(format!("race:server-died:{ex}"), "server process gone during the burst".to_string(), replay.clone());
+                continue;
+            }
+            let pid = s.child.id();
+            let c1 = cpu_ticks(pid);
+            std::thread::sleep(Duration::from_secs(2));
+            let c2 = cpu_ticks(pid);
+            let probe = s.request("glas/syntaxTree", json!({"textDocument":{"uri":"file:///nonexistent/probe.gleam"}}));
+            let answered = s.wait_response(probe, Duration::from_secs(8)).is_some();
+            let missing = ids.iter().filter(|id| !s.responses.contains_key(id)).count();
+            if !answered && c2 <= c1 + 1 {
+                // gdb stack dump as witness
+                let bt = std::process::Command::new("gdb").args(["-p", &pid.to_string(), "-batch", "-ex", "thread apply all bt 12"]).output().map(|o| String::from_utf8_lossy(&o.stdout).to_string()).unwrap_or_default();
+                let mut rp = replay.clone();
+                rp["gdb"] = json!(truncate_str(&bt, 6000));
+                rep.violate("race:deadlock", format!("{missing} requests unanswered, main loop does not answer a probe, CPU flat ({c1}->{c2} ticks), sched {sched}"), rp);
+            } else if answered {
+                rep.violate("race:request-never-answered", format!("{missing} requests unanswered 30 s after the burst although the main loop answers probes"), replay.clone());
+            } else {
+                rep.inconclusive += 1;
+                rep.notes.push("unanswered requests but CPU busy: inconclusive".into());
+            }
+            continue;
+        }
+        // (b) the main loop still accepts
+        let probe = s.request("glas/syntaxTree", json!({"textDocument":{"uri":uris[0]}}));
+        let final_tree0 = s.wait_response(probe, Duration::from_secs(20));
+        // quiescence: no traffic for 300 ms (bounded)
+        let tq = Instant::now();
+        let mut last = s.arrival.len();
+        let mut quiet_since = Instant::now();
+        while tq.elapsed() < Duration::from_secs(10) {
+            s.drain(Duration::from_millis(50));
+            if s.arrival.len() != last { last = s.arrival.len(); quiet_since = Instant::now(); }
+            if quiet_since.elapsed() > Duration::from_millis(300) { break; }
+        }
+        // (a) exactly once
+        for (id, ti, _v) in &issued {
+            let n = s.responses.get(id).map(|v| v.len()).unwrap_or(0);
+            if n != 1 {
+                rep.violate(format!("race:response-count-{n}:{}", all_templates[*ti].method), format!("request {id} answered {n} times"), replay.clone());
+            }
+        }
+        // (c) version consistency
+        let mut n_result = 0u64; let mut n_cancelled = 0u64; let mut n_error = 0u64;
+        for (id, ti, v) in &issued {
+            let Some(resp) = s.responses.get(id).and_then(|x| x.first()) else { continue };
+            let t = all_templates[*ti];
+            if let Some(e) = resp.get("error") {
+                if e["code"].as_i64() == Some(-32800) { n_cancelled += 1; } else { n_error += 1; rep.see("race_error_messages", e["message"].as_str().unwrap_or("").chars().take(50).collect::<String>()); }
+                continue;
+            }
+            n_result += 1;
+            let got = norm_json(&resp["result"]);
+            let want = &ref_ans[*ti][*v];
+            rep.see("race_cells", format!("{}:lag={}", t.method, k - *v));
+            if want.as_deref() == Some(got.as_str()) { continue; }
+            let other = ref_ans[*ti].iter().position(|a| a.as_deref() == Some(got.as_str()));
+            let what = match other { Some(o) if o > *v => "answer-of-a-newer-version", Some(_) => "answer-of-an-older-version", None => "mixture" };
+            let mut rp = replay.clone();
+            rp["request"] = json!({"method": t.method, "params": t.params, "issued_at_version": v});
+            rep.violate(
+                format!("race:{what}:{}", t.method),
+                format!("{} issued at version {v}: got {} ; sequential answer at that version {}", t.method, truncate_str(&got, 300), truncate_str(want.as_deref().unwrap_or("<error>"), 300)),
+                rp,
+            );
+        }
+        rep.count("race_results", n_result); rep.count("race_cancelled", n_cancelled); rep.count("race_errors", n_error);
+        // (d) convergence
+        for d in 0..ndocs {
+            let want_text = texts[k][d].server_view();
+            let tree = if d == 0 { final_tree0.clone() } else { let id = s.request("glas/syntaxTree", json!({"textDocument":{"uri":uris[d]}})); s.wait_response(id, Duration::from_secs(20)) };
+            match tree.as_ref().and_then(|t| t.get("result")).and_then(|r| r.as_str()) {
+                Some(dump) => if let Err(e) = synmon::dump_matches_text(dump, &want_text) {
+                    rep.violate("race:final-text-differs", format!("doc {d}: {e}"), replay.clone());
+                },
+                None => rep.violate("race:final-probe-unanswered-or-error", format!("doc {d}: {:?}", tree.as_ref().map(|t| t.get("error").cloned())), replay.clone()),
+            }
+            let last_diag = s.notifications.iter().rev().find(|(m, p)| m == "textDocument/publishDiagnostics" && p["uri"].as_str() == Some(uris[d].as_str()));
+            match last_diag {
+                Some((_, p)) => {
+                    let got = diag_nf(p);
+                    let want = expected_diagnostics(&want_text);
+                    if got != want {
+                        // which version's diagnostics are they?
+                        let older = (0..k).rev().find(|v| expected_diagnostics(&texts[*v][d].server_view()) == got);
+                        rep.violate(
+                            format!("race:last-diagnostics-not-of-final-text:{}", if older.is_some() { "of-an-older-version" } else if got.is_empty() { "empty" } else { "other" }),
+                            format!("doc {d}: last published {:?} expected {:?}; all publications for this document in order (matching version or ?): {:?}", got.iter().take(4).collect::<Vec<_>>(), want.iter().take(4).collect::<Vec<_>>(),
+                                s.notifications.iter().filter(|(m, p)| m == "textDocument/publishDiagnostics" && p["uri"].as_str() == Some(uris[d].as_str())).map(|(_, p)| { let g = diag_nf(p); (0..=k).filter(|v| expected_diagnostics(&texts[*v][d].server_view()) == g).map(|v| v.to_string()).collect::<Vec<_>>().join("|") }).collect::<Vec<_>>()),
+                            replay.clone(),
+                        );
+                    }
+                    rep.count("convergence_diagnostics_checked", 1);
+                }
+                None => rep.violate("race:no-diagnostics-published", format!("doc {d}"), replay.clone()),
+            }
+        }
+        // coverage: yield points and interleaving signature
+        if let Ok(l) = std::fs::read_to_string(&log_path) {
+            for line in l.lines() {
+                let f: Vec<&str> = line.split_whitespace().collect();
+                if f.len() == 3 { rep.count(&format!("yield[{}]", f[0]), f[1].parse().unwrap_or(0)); rep.count(&format!("yield_slept[{}]", f[0]), f[2].parse().unwrap_or(0)); }
+            }
+        } else if has_hook {
+            rep.count("sched_log_missing", 1);
+        }
+        let sig = fnv(s.arrival.join(",").as_bytes());
+        if n_cancelled + n_error > 0 || n_result > 0 { rep.nontrivial(sig); }
+        if rep.samples.len() < 3 { rep.sample(json!({"case_seed":case_seed.to_string(),"docs":ndocs,"changes":k,"requests":issued.len(),"results":n_result,"cancelled":n_cancelled,"errors":n_error,"sched":sched})); }
+        s.shutdown();
+        n += 1;
+    }
+    rep.count("races", n);
+    let _ = std::fs::remove_dir_all(&env.root);
+    rep
+}
+
 fn main() {
     vh::panicmon::install();
     let args = Args::parse();
     let rep = match (args.prop.as_str(), args.get("part")) {
         ("C15", _) => run_c15(&args),
         ("C13", _) => run_c13bb(&args),
+        ("C16", _) => run_c16(&args),
         (p, _) => panic!("m_lsp does not serve {p}"),
     };
     rep.write(&args.out);
